@@ -33,6 +33,36 @@ func c20spelledFloat(t string) bool {
 	return false
 }
 
+func (m *c20m) textAt(l lexer.Location) string {
+	if m.src == nil || l.StartLine != l.EndLine {
+		return ""
+	}
+	line, col, a, b := 1, 0, -1, -1
+	for i := 0; i <= len(m.src); i++ {
+		if line == l.StartLine && col == l.StartColumn {
+			a = i
+		}
+		if line == l.StartLine && col == l.EndColumn {
+			b = i
+		}
+		if i < len(m.src) && m.src[i] == '\n' {
+			line++
+			col = 0
+		} else {
+			col++
+		}
+	}
+	if a < 0 || b <= a {
+		return ""
+	}
+	return string(m.src[a:b])
+}
+
+func (m *c20m) unwrittenTrue(e ast.Exp) bool {
+	t, ok := e.(*ast.TrueExp)
+	return ok && m.textAt(t.Loc) != "true"
+}
+
 func (m *c20m) literal(l lexer.Location, isFloat bool) {
 	if m.src == nil || l.StartLine != l.EndLine {
 		return
@@ -202,6 +232,11 @@ func (m *c20m) stat(s ast.Stat) {
 	case *ast.IfStat:
 		for i := range st.Exps {
 			for j := 0; j < i; j++ {
+				// (the parser turns `else` into `elseif true`: a condition that is not written `true` in the
+				// text is no condition of the program)
+				if m.unwrittenTrue(st.Exps[i]) || m.unwrittenTrue(st.Exps[j]) {
+					continue
+				}
 				if c20same(st.Exps[i], st.Exps[j]) {
 					m.hit(19, st.Loc)
 				}
@@ -351,6 +386,8 @@ var c20templates = []string{
 	/* 22 */ "local p = 1, \x01 == \x02\nlocal q = f(), { \x01 = 1, \x02 = 2 }\nlocal r, s = 1, 2, \x03 or true, function(\x01, \x02) end\ng = 1, \x01 and false\n",
 	// numerals in every spelling as compared operands, keys and conditions
 	/* 23 */ "local r = \x01 == 0x\x1eF\nlocal t = { [0x0\x1e] = 1, [0x0\x1e] = 2 }\nif \x01 == 0x\x1eF then g = 1 elseif \x01 == 0x\x1eF then g = 2 end\nlocal s = \x01 ~= 0x\x1e.8\nlocal u = \x01 == 0x\x1ep1\nlocal v = \x01 == \x1f\x1f\nlocal w = \x01 == 1e\x1f\n",
+	// an else branch after a constant condition, indexed operands, bracketed string keys, a unary minus
+	/* 24 */ "if \x01 then g = 1 elseif true then g = 2 else g = 3 end\nif true then g = 4 else g = 5 end\nlocal r = t[1] == t[1]\nlocal s = t[\"\x01.\x02\"] == t.\x01.\x02\nlocal u = { [1] = 1, [\"#int1\"] = 2, [\"\x01\"] = 3, \x02 = 4 }\nlocal v = \x01 == -1\x1b5\nlocal w = nil or true\n",
 }
 
 func VerifRun_C20() {
@@ -460,10 +497,24 @@ func VerifRun_C20() {
 				}
 				continue
 			}
+			class := ""
+			if ti == 24 {
+				// known defects, one per line of this template (see known_findings.txt)
+				switch {
+				case line == 3 && typ == 14:
+					class = "C20-indexed-operands"
+				case line == 4 && typ == 14:
+					class = "C20-dotted-string-key"
+				case line == 5 && typ == 5:
+					class = "C20-int-key-encoding"
+				case line == 7 && typ == 15:
+					class = "C20-nil-operand"
+				}
+			}
 			if ng < nw {
-				verifViolation("", "type "+strconv.Itoa(typ)+": an occurrence of the documented pattern is not reported")
+				verifViolation(class, "type "+strconv.Itoa(typ)+": an occurrence of the documented pattern is not reported")
 			} else if ng > nw+no {
-				verifViolation("", "type "+strconv.Itoa(typ)+": reported where the documented pattern does not occur (or reported more than once)")
+				verifViolation(class, "type "+strconv.Itoa(typ)+": reported where the documented pattern does not occur (or reported more than once)")
 			}
 		}
 	}
